@@ -237,7 +237,20 @@ func c14Abandon(c *run.C) {
 		u0, _ := gotype.NewUnfolder(nil)
 		idle = hook.Depths(u0)
 	}
+	ks := make([]int, 0, len(s)+1)
 	for k := 0; k <= len(s); k++ {
+		ks = append(ks, k)
+	}
+	if w := streamWeight(s); w > 4000 {
+		// a typed container event with 2^15 / 2^16 elements: abandon points
+		// at both ends and in the middle only (a case stays linear in its size)
+		ks = []int{0, 1, 2, len(s) / 2, len(s) - 1, len(s)}
+		c.Observe("abandon_sampled_heavy_streams", 1)
+	}
+	for _, k := range ks {
+		if k < 0 || k > len(s) {
+			continue
+		}
 		c.Begin(c14Case{Type: t.String(), How: how, Stream: s, K: k})
 		_, target, canary := canaryHolder(t)
 		u, err := gotype.NewUnfolder(target.Interface())
@@ -426,4 +439,18 @@ func init() {
 		},
 		Suites: suites,
 	})
+}
+
+// streamWeight counts events, elements of extended events included.
+func streamWeight(s val.Stream) int {
+	w := 0
+	for _, e := range s {
+		w++
+		if e.X != nil {
+			if rv := reflect.ValueOf(e.X); rv.Kind() == reflect.Slice || rv.Kind() == reflect.Map {
+				w += rv.Len()
+			}
+		}
+	}
+	return w
 }
